@@ -64,6 +64,7 @@ type rulesKindInfo struct {
 var rulesKinds = map[string]rulesKindInfo{
 	"string":       {reflect.TypeOf(""), reflect.TypeOf(rulesSString{}), "string"},
 	"string_delim": {reflect.TypeOf(""), reflect.TypeOf(rulesSString{}), "string"},
+	"string_rep":   {reflect.TypeOf(""), reflect.TypeOf(rulesSString{}), "string"}, // n characters: the pattern cps repeated (long strings)
 	"int8":         {reflect.TypeOf(int8(0)), reflect.TypeOf(rulesSInt8{}), "int"},
 	"int16":        {reflect.TypeOf(int16(0)), reflect.TypeOf(rulesSInt16{}), "int"},
 	"int32":        {reflect.TypeOf(int32(0)), reflect.TypeOf(rulesSInt32{}), "int"},
@@ -81,33 +82,43 @@ var rulesKinds = map[string]rulesKindInfo{
 }
 
 var rulesKindOrder = []string{"string", "int8", "int16", "int32", "int64", "int", "uint8", "uint16", "uint32", "uint64", "uint",
-	"float32", "float64", "slice_int", "slice_string"}
+	"float32", "float64", "slice_int", "slice_string", "string_rep"}
 
 // Bounds and values beyond 32 bits: TLC integers are 32-bit, so the model works with rulesBigModel + d where the real
-// call uses rulesBigReal + d (d small). The map is strictly monotone on the numbers the recorder generates
+// call uses rulesBigReal(kind) + d (d small). The map is strictly monotone on the numbers the recorder generates
 // (|x| <= 2*10^6 or within a few units of +-rulesBigModel), so every comparison has the same outcome on both sides.
-const (
-	rulesBigModel = 400000000
-	rulesBigReal  = int64(1) << 40
-)
+// Integers sit at 2^53 (where float64 has gaps of 2: a comparison routed through float64 merges neighbours), floats
+// at 2^40 (where halves are still exact).
+const rulesBigModel = 400000000
 
-func rulesReal(x int64) int64 {
+func rulesBigReal(kind string) int64 {
+	switch rulesKinds[kind].class {
+	case "float":
+		return int64(1) << 40
+	case "string", "slice": // lengths: beyond 1 KiB of text
+		return 1100
+	}
+	return int64(1) << 53
+}
+
+func rulesReal(kind string, x int64) int64 {
 	if x >= rulesBigModel/2 {
-		return x - rulesBigModel + rulesBigReal
+		return x - rulesBigModel + rulesBigReal(kind)
 	}
 	if x <= -rulesBigModel/2 {
-		return x + rulesBigModel - rulesBigReal
+		return x + rulesBigModel - rulesBigReal(kind)
 	}
 	return x
 }
 
 // rulesRealHalves maps a count of halves to the real float
 func rulesRealHalves(h int64) float64 {
+	big := float64(rulesBigReal("float64"))
 	if h >= rulesBigModel {
-		return float64(h-2*rulesBigModel)/2 + float64(rulesBigReal)
+		return float64(h-2*rulesBigModel)/2 + big
 	}
 	if h <= -rulesBigModel {
-		return float64(h+2*rulesBigModel)/2 - float64(rulesBigReal)
+		return float64(h+2*rulesBigModel)/2 - big
 	}
 	return float64(h) / 2
 }
@@ -122,13 +133,25 @@ func rulesConc(kind string, v rulesVal) (reflect.Value, error) {
 	rv := reflect.New(ki.t).Elem()
 	switch ki.class {
 	case "string":
+		if kind == "string_rep" {
+			n := int(rulesReal(kind, v.N))
+			if n < 1 || len(v.Cps) == 0 {
+				return rv, fmt.Errorf("string_rep of %d characters over %v", n, v.Cps)
+			}
+			rs := make([]rune, n)
+			for i := range rs {
+				rs[i] = rune(v.Cps[i%len(v.Cps)])
+			}
+			rv.SetString(string(rs))
+			break
+		}
 		rs := make([]rune, len(v.Cps))
 		for i, c := range v.Cps {
 			rs[i] = rune(c)
 		}
 		rv.SetString(string(rs))
 	case "int":
-		x := rulesReal(v.N)
+		x := rulesReal(kind, v.N)
 		bits := uint(ki.t.Bits())
 		if v.Far < 0 {
 			x = -1 << (bits - 1)
@@ -146,7 +169,7 @@ func rulesConc(kind string, v rulesVal) (reflect.Value, error) {
 		} else if v.Far < 0 || v.N < 0 {
 			return rv, fmt.Errorf("negative value for %s", kind)
 		} else {
-			x = uint64(rulesReal(v.N))
+			x = uint64(rulesReal(kind, v.N))
 		}
 		if rv.OverflowUint(x) {
 			return rv, fmt.Errorf("%d does not fit %s", x, kind)
@@ -179,7 +202,7 @@ func rulesConc(kind string, v rulesVal) (reflect.Value, error) {
 			}
 		}
 	case "slice":
-		n := int(v.N)
+		n := int(rulesReal(kind, v.N))
 		s := reflect.MakeSlice(ki.t, n, n)
 		for i := 0; i < n; i++ {
 			if ki.t.Elem().Kind() == reflect.String {
@@ -406,15 +429,15 @@ func rulesAbstract(errText string, isNil bool, panicText string) rulesObs {
 	return o
 }
 
-func rulesText(rule string, lo, hi int, msg string) string {
+func rulesText(kind, rule string, lo, hi int, msg string) string {
 	var s string
 	switch rule {
 	case "to", "oto":
-		s = rule + "=" + strconv.FormatInt(rulesReal(int64(lo)), 10) + "~" + strconv.FormatInt(rulesReal(int64(hi)), 10)
+		s = rule + "=" + strconv.FormatInt(rulesReal(kind, int64(lo)), 10) + "~" + strconv.FormatInt(rulesReal(kind, int64(hi)), 10)
 	case "le", "lt":
-		s = rule + "=" + strconv.FormatInt(rulesReal(int64(hi)), 10)
+		s = rule + "=" + strconv.FormatInt(rulesReal(kind, int64(hi)), 10)
 	default: // ge gt eq noeq
-		s = rule + "=" + strconv.FormatInt(rulesReal(int64(lo)), 10)
+		s = rule + "=" + strconv.FormatInt(rulesReal(kind, int64(lo)), 10)
 	}
 	if msg != "" {
 		s += "|" + msg
@@ -482,7 +505,7 @@ func rulesGroups(args []string) error {
 		if !ok {
 			return fmt.Errorf("group for kind %q before its value list", g.Kind)
 		}
-		rules := rulesText(g.Rule, g.Lo, g.Hi, g.Msg)
+		rules := rulesText(g.Kind, g.Rule, g.Lo, g.Hi, g.Msg)
 		o := rulesGroupOut{T: "grp", Gid: g.Gid, Rules: rules, Obs: map[string]string{}}
 		for _, c := range cl {
 			b := make([]byte, len(vs))
@@ -583,6 +606,9 @@ func rulesRandomValue(rng *rand.Rand, kind string, target int64) rulesVal {
 		return v
 	}
 	wide := ki.class == "float" && ki.t.Bits() == 64 || (ki.class == "int" || ki.class == "uint") && ki.t.Bits() == 64
+	if ki.class == "string" || ki.class == "slice" {
+		wide = true // lengths: the big region stands for 1100 +- d characters / elements
+	}
 	if !wide { // narrow kinds cannot sit next to a bound beyond 32 bits: keep them in the plain region
 		if target > 2000000 {
 			target = 2000000 - int64(rng.Intn(3))
@@ -634,11 +660,27 @@ func rulesRandomValue(rng *rand.Rand, kind string, target int64) rulesVal {
 		if target < 1 {
 			target = int64(rulesRndIn(rng, 1, 2))
 		}
-		if target > 45 {
+		if target > 45 && target < rulesBigModel-100 {
 			target = 45
+		}
+		if target > rulesBigModel+100 {
+			target = rulesBigModel + 100
 		}
 		v.N = target
 	case "string":
+		if kind == "string_rep" {
+			if target < rulesBigModel-100 {
+				target = rulesBigModel - 100
+			}
+			if target > rulesBigModel+100 {
+				target = rulesBigModel + 100
+			}
+			v.N = target
+			for i := rulesRndIn(rng, 1, 3); i > 0; i-- {
+				v.Cps = append(v.Cps, rulesAlphabet[rng.Intn(len(rulesAlphabet))])
+			}
+			break
+		}
 		if target < 1 {
 			target = int64(rulesRndIn(rng, 1, 2))
 		}
@@ -679,8 +721,11 @@ func rulesRecord(args []string) error {
 		}
 		sc := scales[rng.Intn(len(scales))]
 		lo := rulesRndIn(rng, -sc, sc)
-		big := class != "string" && class != "slice" && rng.Intn(8) == 0
-		if big { // a bound beyond 32 bits (model: rulesBigModel + d, real: 2^40 + d)
+		big := class != "string" && rng.Intn(8) == 0
+		if kind == "string_rep" {
+			big = true
+		}
+		if big { // a bound beyond 32 bits (model: rulesBigModel + d, real: 2^53 + d for integers, 2^40 + d for floats)
 			lo = (1 - 2*rng.Intn(2)) * (rulesBigModel + rulesRndIn(rng, -3, 3))
 		}
 		hi := lo
@@ -723,7 +768,7 @@ func rulesRecord(args []string) error {
 		if rng.Intn(2) == 0 {
 			msg = "tk0"
 		}
-		rules := rulesText(rule, lo, hi, msg)
+		rules := rulesText(kind, rule, lo, hi, msg)
 		ob := rulesAbstractC(carrier, kind, v, rules, rng)
 		if ob.Verdict != "0" && ob.Verdict != "1" {
 			out.put(map[string]interface{}{"id": id, "bad": ob, "kind": kind, "n": av.N, "far": av.Far, "cps": av.Cps, "eps": av.Eps, "carrier": carrier, "rules": rules,
@@ -858,7 +903,7 @@ func rulesAgree(args []string) error {
 				if rule == "to" || rule == "oto" {
 					hi = lo + rulesRndIn(rng, -2, 6)
 				}
-				rs = append(rs, rulesAgreeRule{Key: rule, Lo: lo, Hi: hi, Tok: tok, Iv: true, Text: rulesText(rule, lo, hi, msg)})
+				rs = append(rs, rulesAgreeRule{Key: rule, Lo: lo, Hi: hi, Tok: tok, Iv: true, Text: rulesText(kind, rule, lo, hi, msg)})
 				pool = append(pool, strings.Repeat("x", rulesRndIn(rng, 1, 13)))
 			} else {
 				var fr = rulesFormat[rng.Intn(len(rulesFormat))]
